@@ -521,8 +521,12 @@ def run(ctx):
     res.rule("C03-R3", "dispatch agreement: in Packet::create the class whose validator is called is the class constructed, for every payload type with a typed class")
     res.rule("C03-R4", "message level: Packet::isValidPacket guards its header read by size >= 16 and bounds payloadLength by size - 16; packets are "
                         "constructed from raw bytes only under it (decoder) or from a buffer whose header length the owner maintains (reassembly)")
+    res.rule("C03-R5", "the size the validator saw is the size the object owns: Payload(type, data, size) gives its buffer exactly `size` bytes on every path "
+                        "(C04-R6) — the validators bound inner lengths by the caller's size, the accessors by the object's")
     res.not_decided += ["meaningfulness of view contents; only extents are decided", "payloads built through the API (C13)"]
 
+    from rules.c04 import rule_reported_length
+    rule_reported_length(fb, res, "C03-R5")
     for cls in CLASSES:
         q = NS + cls
         val = find_method(fb, q, "isValidPayload")
